@@ -1337,6 +1337,11 @@ class C11(Property):
                 spec_ok = False
                 detail = detail or (f"step {i}: results after {step['outcome']} differ from a fresh run under the "
                                     f"current threshold: {step}")[:600]
+            if step["outcome"] == "reuse" and i < len(msteps) and msteps[i].get("may_reuse") is False:
+                spec_ok = False
+                detail = detail or f"step {i}: results reused across a schema change"
+            if i < len(msteps) and step["outcome"] != msteps[i]["outcome"]:
+                break   # histories diverge here; later steps are not comparable
         for i, step in enumerate(obs["steps"]):
             if i >= len(msteps):
                 corr, detail = False, detail or "model stopped early"
@@ -1355,9 +1360,6 @@ class C11(Property):
             if not m["reference_ok"]:
                 spec_ok = False
                 detail = detail or f"step {i}: model result differs from the reference of the spec"
-            if step["outcome"] == "reuse" and not m["may_reuse"]:
-                spec_ok = False
-                detail = detail or f"step {i}: reused across a schema change"
         outcomes = tuple(sorted({"tta:" + s["outcome"].split(":")[0] for s in obs["steps"]}))
         return Judgement(corr, spec_ok, nontrivial=obs["n_codons"] > 0, tags=("tta",) + outcomes
                          + (("mutated",) if obs["mutated"] else ("same-settings",)), detail=detail)
